@@ -54,7 +54,9 @@ pub fn run(ctx: &mut Ctx) {
     }
     ctx.ev.rule = "corpus + fixtures + generated ledgers with CAPRETURN/ACCUMULATION/DIVIDEND at any position, plus ledgers with 2–3 capital returns (and sometimes an accumulation) of one security on one date whose sum straddles the remaining expenditure. Oracles on the real matcher: (a) removing every DIVIDEND line changes no leg and no holding; (b) inserting an ACCUMULATION and a CAPRETURN of equal net amount on one date (in either line order) changes nothing and is not refused; (c) inserting one ACCUMULATION of v on a date where shares are held (ledgers without splits) raises Σ legs' cost + closing cost of that security by exactly v and leaves other securities alone; a CAPRETURN lowers it by exactly its net amount or is refused with a message citing S122; (d) no leg or holding has negative allowable cost — except inside known-finding class negativeLot (D6), decided by the Lean model of the pre-pass. Correspondence: accept/refuse and costs vs the model. Non-trivial = ledgers with an effective cost event; distinct by ledger text.".into();
     let mut r = Rng::new(ctx.seed ^ 0xC11);
+    let mut cli_left: u32 = if ctx.tier == Tier::Quick { 8 } else { 80 };
     for (name, l) in cases {
+        if cli_left > 0 && well_formed(&l) && l.len() >= 3 { cli_left -= 1; cli_crosscheck(ctx, prop, &l, None); }
         if !well_formed(&l) || l.is_empty() { continue; }
         ctx.ev.evaluations += 1;
         let base = run_impl::impl_match(&l);
